@@ -293,6 +293,17 @@ def match_known(pid, violation, known):
 # Replay files and evidence
 
 
+def tie_detail(ctx):
+    """What no longer checks, in one line: the first broken obligation, else the first model/implementation disagreement."""
+    if ctx.broken:
+        return "obligation no longer discharged: %s" % (ctx.broken[0],)
+    if ctx.disagreements:
+        d = ctx.disagreements[0]
+        return "model and implementation disagree (%d cases); first: %s case %r: implementation %r, model %r" % (
+            len(ctx.disagreements), d.get("component") or "-", d.get("case"), d.get("impl"), d.get("model"))
+    return ""
+
+
 def write_replay(pid, payload):
     d = os.path.join(ROOT, "replays")
     os.makedirs(d, exist_ok=True)
@@ -507,6 +518,7 @@ def run_check(pid, module, tier, seed):
     elif tie_broken:
         path = write_replay(pid, {
             "property": pid, "kind": "tie-broken", "seed": seed, "tier": tier,
+            "detail": tie_detail(ctx),
             "broken_obligations": ctx.broken,
             "disagreements": ctx.disagreements[:10],
             "build_output": build_out[-3000:],
